@@ -17,7 +17,7 @@ Definition mat := list vec.           (* list of rows *)
 (* exceptions: "Encountered unknown operation" | ValueError raised by AdArray / the parser's
    re-raise | division by zero or a non-finite result (not representable in Q) |
    NotImplementedError of evaluate | operand combination outside the modelled fragment *)
-Inductive err := EUnknownOp | EValue | EDivZero | ENotImpl | EUnsupported.
+Inductive err := EUnknownOp | EValue | EDivZero | ENotImpl | EKey | EUnsupported.
 
 Inductive res (A : Type) := Ok (a : A) | Err (e : err).
 Arguments Ok {A} a.
@@ -308,13 +308,23 @@ Inductive leaf :=
 | LSparse (nc : nat) (m : mat)
 | LProj (s : slicer)
 | LProjList (l : list slicer)
-| LVar (dofs : list nat)              (* (md-)variable at the current time and iterate     *)
-| LStored (v : vec).                  (* (md-)variable at a previous time step / iterate,
-                                         or a time-dependent array: the stored values     *)
+| LVar (dofs : list nat) (t i : Z)    (* (md-)variable: global dofs in the order of its
+                                         sub-variables; private time-step / iterate index
+                                         (-1 = current)                                     *)
+| LTdda (pos : list nat) (t : Z).     (* TimeDependentDenseArray: positions in the stored
+                                         arrays, private time-step index                    *)
 
 Inductive tree := Leaf (l : leaf) | Bin (o : op) (a b : tree).
 
-Record env := { state : vec; deriv : bool }.
+(* [ts k] / [its k]: the global vector stored at time-step / iterate index k;
+   [src_it0], [src_ts k]: the values of the time-dependent array *)
+Record env := { state : vec; deriv : bool;
+                ts : list vec; its : list vec; src_it0 : vec; src_ts : list vec }.
+
+(* pp.get_solution_values(..., index k): KeyError when nothing is stored at k *)
+Definition lookup (l : list vec) (k : Z) : res vec :=
+  if Z.ltb k 0 then Err EKey
+  else match nth_error l (Z.to_nat k) with Some v => Ok v | None => Err EKey end.
 
 (* ad_base = initAdArrays([state])[0] if derivative else state *)
 Definition ad_base (e : env) : value :=
@@ -335,8 +345,15 @@ Definition parse_leaf (l : leaf) (e : env) : res value :=
   | LSparse nc m => Ok (VMat nc m)
   | LProj s => Ok (VSl s)
   | LProjList l => Ok (VSlList l)
-  | LVar dofs => getitem (ad_base e) dofs
-  | LStored v => Ok (VVec v)
+  | LVar dofs t i =>
+      (* is_previous_time first (iterate_index is None then), then is_previous_iterate:
+         the values stored for every sub-variable, in the order of the sub-variables *)
+      if Z.leb 0 t then bind (lookup (ts e) t) (fun v => Ok (VVec (take 0 v dofs)))
+      else if Z.leb 0 i then bind (lookup (its e) i) (fun v => Ok (VVec (take 0 v dofs)))
+      else getitem (ad_base e) dofs
+  | LTdda pos t =>
+      if Z.leb 0 t then bind (lookup (src_ts e) t) (fun v => Ok (VVec (take 0 v pos)))
+      else Ok (VVec (take 0 (src_it0 e) pos))
   end.
 
 (* sum([c @ x for c in slicers]) : python's sum starts from the int 0 *)
@@ -430,6 +447,31 @@ Fixpoint no_rops (t : tree) : bool :=
   match t with Leaf _ => true | Bin o a b => negb (is_rop o) && no_rops a && no_rops b end.
 
 (* ---------------------------------------------------------------------------------- *)
+(* Operator.previous_timestep / previous_iteration                                      *)
+(* ---------------------------------------------------------------------------------- *)
+(* _get_previous_time_or_iterate(op, prev_time, steps): time-dependent (iterative) leaves
+   get their index advanced by [steps]; a variable already at a previous iterate (time step)
+   cannot be moved in time (iterate): ValueError; other leaves are returned as they are;
+   inner nodes are copied with the recursion applied to the children. *)
+Definition shift_leaf (prev_time : bool) (steps : Z) (l : leaf) : res leaf :=
+  match l with
+  | LVar dofs t i =>
+      if prev_time
+      then if Z.leb 0 i then Err EValue else Ok (LVar dofs (t + steps) i)
+      else if Z.leb 0 t then Err EValue else Ok (LVar dofs t (i + steps))
+  | LTdda pos t => if prev_time then Ok (LTdda pos (t + steps)) else Ok l
+  | _ => Ok l
+  end.
+
+Fixpoint shift_tree (prev_time : bool) (steps : Z) (t : tree) : res tree :=
+  match t with
+  | Leaf l => bind (shift_leaf prev_time steps l) (fun l' => Ok (Leaf l'))
+  | Bin o a b =>
+      bind (shift_tree prev_time steps a) (fun a' =>
+      bind (shift_tree prev_time steps b) (fun b' => Ok (Bin o a' b')))
+  end.
+
+(* ---------------------------------------------------------------------------------- *)
 (* the arithmetic overloads of Operator (after the repair)                              *)
 (* ---------------------------------------------------------------------------------- *)
 (* a python operand: an Operator (tree) or a plain number / numpy array / sparse matrix *)
@@ -491,6 +533,7 @@ Fixpoint close_mat (a b : mat) : bool :=
 Inductive obs :=
 | ObsErr (unknown_op : bool)          (* ValueError; flag: "Encountered unknown operation" *)
 | ObsNotImpl
+| ObsKeyErr                           (* KeyError: nothing stored at the requested index  *)
 | ObsNonFinite                        (* inf / nan entries, or python's ZeroDivisionError *)
 | ObsNum (x : Qc)
 | ObsVec (v : vec)
@@ -503,6 +546,7 @@ Definition agree_obs (r : res value) (o : obs) : bool :=
   | Err EValue, ObsErr false => true
   | Err ENotImpl, ObsNotImpl => true
   | Err EDivZero, ObsNonFinite => true
+  | Err EKey, ObsKeyErr => true
   | Ok (VNum x), ObsNum y => close x y
   | Ok (VVec v), ObsVec w => close_vec v w
   | Ok (VMat _ m), ObsMat m' => close_mat m m'
@@ -521,16 +565,49 @@ Definition res_eqb (a b : res value) : bool :=
       && if list_eq_dec (list_eq_dec Qc_eq_dec) j k then true else false
   | Err e, Err e' => match e, e' with
                      | EUnknownOp, EUnknownOp | EValue, EValue | EDivZero, EDivZero
-                     | ENotImpl, ENotImpl | EUnsupported, EUnsupported => true
+                     | ENotImpl, ENotImpl | EUnsupported, EUnsupported | EKey, EKey => true
                      | _, _ => false end
   | _, _ => false
   end.
 
+(* the stored values of one case: state = iterate 0 *)
+Record stores := { st_ts : list vec; st_its : list vec; st_src_it0 : vec; st_src_ts : list vec }.
+
+Definition mkenv (st : vec) (s : stores) (d : bool) : env :=
+  {| state := st; deriv := d; ts := st_ts s; its := st_its s;
+     src_it0 := st_src_it0 s; src_ts := st_src_ts s |}.
+
 (* one correspondence case: the tree the implementation built, the state, and what
    EquationSystem.evaluate returned with and without derivative *)
-Definition agree (t : tree) (st : vec) (with_d without_d : obs) : bool :=
-  let e1 := {| state := st; deriv := true |} in
-  let e0 := {| state := st; deriv := false |} in
+Definition agree (t : tree) (st : vec) (s : stores) (with_d without_d : obs) : bool :=
+  let e1 := mkenv st s true in
+  let e0 := mkenv st s false in
   agree_obs (evaluate t e1) with_d && agree_obs (evaluate t e0) without_d
   && (negb (no_rops t)
       || (res_eqb (parse t e1) (direct t e1) && res_eqb (parse t e0) (direct t e0))).
+
+(* correspondence of previous_timestep / previous_iteration applied to a whole tree: the
+   serialised operator before the call, the arguments, and the serialised result (None: the
+   call raised ValueError) *)
+Definition slicer_eq_dec : forall a b : slicer, {a = b} + {a <> b}.
+Proof. decide equality; auto using Nat.eq_dec, (list_eq_dec Nat.eq_dec). Defined.
+
+Definition leaf_eq_dec : forall a b : leaf, {a = b} + {a <> b}.
+Proof.
+  decide equality;
+    auto using Z.eq_dec, Nat.eq_dec, Qc_eq_dec, slicer_eq_dec, (list_eq_dec Nat.eq_dec),
+      (list_eq_dec Qc_eq_dec), (list_eq_dec (list_eq_dec Qc_eq_dec)), (list_eq_dec slicer_eq_dec).
+Defined.
+
+Definition op_eq_dec : forall a b : op, {a = b} + {a <> b}.
+Proof. decide equality. Defined.
+
+Definition tree_eq_dec : forall a b : tree, {a = b} + {a <> b}.
+Proof. decide equality; auto using leaf_eq_dec, op_eq_dec. Defined.
+
+Definition agree_shift (inner : tree) (prev_time : bool) (steps : Z) (outer : option tree) : bool :=
+  match shift_tree prev_time steps inner, outer with
+  | Ok t', Some t'' => if tree_eq_dec t' t'' then true else false
+  | Err EValue, None => true
+  | _, _ => false
+  end.
